@@ -53,6 +53,7 @@ fn base_event(c: &Value) -> Map<String, Value> {
 fn run_threads(c: &Value) -> Vec<Value> {
     let n = c["n"].as_u64().unwrap_or(8) as usize;
     let calls: Vec<Value> = c["calls"].as_array().cloned().unwrap_or_default();
+    let rounds = c["rounds"].as_u64().unwrap_or(1) as usize;
     let barrier = std::sync::Arc::new(std::sync::Barrier::new(n));
     let mut handles = Vec::new();
     for t in 0..n {
@@ -62,16 +63,20 @@ fn run_threads(c: &Value) -> Vec<Value> {
             barrier.wait();
             let mut evs = Vec::new();
             let k = calls.len();
-            for j in 0..k {
-                // each thread walks the calls in its own rotation so that different calls overlap
-                let c = &calls[(j + t) % k];
-                let mut ev = base_event(c);
-                ev.insert("thread".into(), json!(t));
-                ev.insert("seq".into(), json!(j));
-                if let Err(e) = worker::run_op(c, &mut ev) {
-                    ev.insert("harness_error".into(), json!(e));
+            for round in 0..rounds {
+                for j in 0..k {
+                    // each thread walks the calls in its own rotation (and each round in another
+                    // order) so that different calls overlap and follow different histories
+                    let idx = if round % 2 == 0 { (j + t + 7 * round) % k } else { (k - 1 - j + t + 7 * round) % k };
+                    let c = &calls[idx];
+                    let mut ev = base_event(c);
+                    ev.insert("thread".into(), json!(t));
+                    ev.insert("seq".into(), json!(round * k + j));
+                    if let Err(e) = worker::run_op(c, &mut ev) {
+                        ev.insert("harness_error".into(), json!(e));
+                    }
+                    evs.push(Value::Object(ev));
                 }
-                evs.push(Value::Object(ev));
             }
             evs
         }));
